@@ -358,6 +358,10 @@ pub fn real_suite(rng: &mut Pcg64Mcg, count: usize, max_steps: u64) -> Vec<Run> 
             // the CLI's chain with scaled-down step counts
             let mut user = random_req(rng, max_steps);
             user.kt_start = pick(rng, &[0.1, 0.05, 0.5]);
+            // a ratio above one is only generated together with a zero start
+            if user.kt_ratio.map(|r| r > 1.).unwrap_or(false) {
+                user.kt_ratio = Some(0.5);
+            }
             user.max_step = pick(rng, &[0.01, 0.05, 0.2]);
             let idx = rng.gen_range(0, 50);
             let mut c = cli_chain(&user, idx);
